@@ -187,9 +187,11 @@ class Model:
             ln = v['vsize']
             v['vsize'] = (0xFFFFFFFF if ln > 4294967292 else ln) if ls['fmt'] < 5 else ln
             v.pop('isrec', None)
+        end = max([o + len(b) for o, b in regions] + [self.xsz])
+        self.hi = max(getattr(self, 'hi', 0), end)      # a header that shrinks in data mode leaves its old tail behind
         return dict(header=self.header, xsz=self.xsz, regions=regions, schema=ls, nvars=len(self.s['vars']),
                     data=copy.deepcopy(self.data), align=list(getattr(self, 'align', [4, 4, 4])),
-                    end=max([o + len(b) for o, b in regions] + [self.xsz]))
+                    end=end, hi=self.hi)
 
     def inq_expect(self):
         return [self.xsz, self.begin_var, self.recsize, self.s['numrecs'] if self.unlim() >= 0 else -1,
@@ -298,33 +300,66 @@ def gen_scenario(rng, lean, path, kind, feats):
                 rename(False)
 
     def rename(in_data_mode):
+        # pick the object to rename: (old stored name, used-name set, setter, script line maker)
         r = rng.below(3)
         if r == 0 and m.s['vars']:
             k = rng.below(len(m.s['vars']))
-            v = m.s['vars'][k]
-            new = newname(v['name'], m.names['v'], in_data_mode)
-            if new:
-                v['name'] = new
-                ok('renvar %d %s' % (k, raw_hex(new)))
-                feats.add('rename' + ('-data-mode' if in_data_mode else ''))
+            obj, used = m.s['vars'][k], m.names['v']
+            mk = lambda rawhex, k=k: 'renvar %d %s' % (k, rawhex)
         elif r == 1 and m.s['dims']:
             k = rng.below(len(m.s['dims']))
-            d = m.s['dims'][k]
-            new = newname(d['name'], m.names['d'], in_data_mode)
-            if new:
-                d['name'] = new
-                ok('rendim %d %s' % (k, raw_hex(new)))
-                feats.add('rename' + ('-data-mode' if in_data_mode else ''))
+            obj, used = m.s['dims'][k], m.names['d']
+            mk = lambda rawhex, k=k: 'rendim %d %s' % (k, rawhex)
         else:
             cand = [(-1, a) for a in m.s['gatts']] + [(k, a) for k, v in enumerate(m.s['vars']) for a in v['atts']]
-            if cand:
-                vid, a = rng.choice(cand)
-                used = m.names.setdefault('g' if vid < 0 else ('a', vid), set())
-                new = newname(a['name'], used, in_data_mode)
-                if new:
-                    ok('renatt %d %s %s' % (vid, hx(a['name']), raw_hex(new)))
-                    a['name'] = new
-                    feats.add('rename' + ('-data-mode' if in_data_mode else ''))
+            if not cand:
+                return
+            vid, obj = rng.choice(cand)
+            used = m.names.setdefault('g' if vid < 0 else ('a', vid), set())
+            mk = lambda rawhex, vid=vid, old=obj['name']: 'renatt %d %s %s' % (vid, hx(old), rawhex)
+        oldn = obj['name']
+        L = len(oldn)
+        mode = rng.below(6) if in_data_mode else 9
+        if mode in (0, 1) and 4 <= L <= 248:        # (raw and NFC forms both stay within NC_MAX_NAME)
+            # data mode, raw name NOT longer than the old one but its NFC form (what is stored) IS longer:
+            # the rule is on the normalised length, the call must be refused with NC_ENOTINDEFINE and the
+            # header must stay as it is (U+0958..U+095F: 3 bytes raw, 6 bytes NFC)
+            for _ in range(20):
+                nx = rng.range(1, min(2, (L - 1) // 3))
+                pre = L - 3 * nx - rng.choice([0, 0, 1])
+                if pre < 1:
+                    continue
+                s_ = rng.choice(H.FIRST) + ''.join(rng.choice(SAFE_REST) for _ in range(pre - 1)) + \
+                    ''.join(rng.choice(['\u0958', '\u0959', '\u095b', '\u095e', '\u095f']) for _ in range(nx))
+                raw = s_.encode('utf8')
+                nfc = unicodedata.normalize('NFC', s_).encode('utf8')
+                if len(raw) <= L < len(nfc) and nfc not in used:
+                    ops.append((mk(hx(raw)), dict(kind='err', code=-38, why='data-mode rename whose NFC form (%d bytes) is longer than the old name (%d), raw %d' % (len(nfc), L, len(raw)))))
+                    feats.add('data-mode-rename-NFC-longer-refused')
+                    return
+            return
+        if mode in (2, 3) and 3 <= L <= 248:
+            # data mode, raw name LONGER than the old one but NFC form not longer: must be accepted
+            for _ in range(20):
+                pre = L - 2 - rng.choice([0, 0, 1])
+                if pre < 1:
+                    continue
+                s_ = rng.choice(H.FIRST) + ''.join(rng.choice(SAFE_REST) for _ in range(pre - 1)) + rng.choice(['e\u0301', 'u\u0308', 'A\u030a', 'n\u0303'])
+                raw = s_.encode('utf8')
+                nfc = unicodedata.normalize('NFC', s_).encode('utf8')
+                if len(nfc) <= L and nfc not in used:
+                    used.add(nfc)
+                    RAW_OF[nfc] = raw
+                    ok(mk(hx(raw)))
+                    obj['name'] = nfc
+                    feats.add('data-mode-rename-NFC-shorter-accepted')
+                    return
+            return
+        new = newname(oldn, used, in_data_mode)
+        if new:
+            ok(mk(raw_hex(new)))
+            obj['name'] = new
+            feats.add('rename' + ('-data-mode' if in_data_mode else ''))
 
     def newname(oldn, used, in_data_mode):
         # in data mode the STORED (NFC) name may not be longer than the old one
@@ -344,6 +379,9 @@ def gen_scenario(rng, lean, path, kind, feats):
             line = 'enddef'
         else:
             args = (rng.choice(HMIN), rng.choice(VALIGN), rng.choice(VMIN), rng.choice(RALIGN))
+            if rng.chance(1, 3):
+                args = (0, 4, 0, 4)          # tight: header extent = header size, no slack before the first variable
+                feats.add('tight-extent')
             line = 'enddef4 %d %d %d %d' % args
             feats.add('enddef4')
         m.last_args = args
@@ -483,23 +521,27 @@ def gen_scenario(rng, lean, path, kind, feats):
         return None, e
     if rng.chance(2, 3):
         accesses()           # the last data access before a redef is often a non-contiguous one
+    def data_mode_updates():
+        # data-mode metadata updates: put_att not growing, renames (the rule "not longer" is on NFC lengths)
+        done = False
+        for _ in range(rng.range(1, 3)):
+            if rng.chance(1, 3):
+                cand = [-1] + list(range(len(m.s['vars'])))
+                done = put_att(rng.choice(cand), in_data_mode=True) or done
+            else:
+                n0 = len(ops)
+                rename(True)
+                done = done or len(ops) > n0
+        if done:
+            return promised('sync-after-data-mode-update')
+        return None
+
     nphase = rng.choice([0, 0, 1, 1, 2]) if kind == 'plain' else (1 if kind == 'novars' else 0)
     for ph in range(nphase):
         if rng.chance(1, 2):
-            # data-mode metadata updates: put_att not growing, rename not longer
-            done = False
-            for _ in range(rng.range(1, 2)):
-                if rng.chance(1, 2):
-                    cand = [-1] + list(range(len(m.s['vars'])))
-                    done = put_att(rng.choice(cand), in_data_mode=True) or done
-                else:
-                    n0 = len(ops)
-                    rename(True)
-                    done = done or len(ops) > n0
-            if done:
-                e = promised('sync-after-data-mode-update')
-                if e:
-                    return None, e
+            e = data_mode_updates()
+            if e:
+                return None, e
         # redefinition
         m.old = (m.begin_var, m.begin_rec, [(v['isrec'], v['begin']) for v in m.s['vars']])
         m.indef = True
@@ -517,6 +559,10 @@ def gen_scenario(rng, lean, path, kind, feats):
             return None, e
         if rng.chance(1, 2):
             accesses()       # leave a data-access file view in place for the next redef / close
+    if kind != 'novars' and rng.chance(1, 2):
+        e = data_mode_updates()
+        if e:
+            return None, e
     ok('close')
     if kind == 'plain' and rng.chance(1, 3):
         # reopen for writing (possibly with other hints), redefine, close: ncp->old now comes from
@@ -851,6 +897,10 @@ def run_check(tier, seed):
                         if len(got) < 2 or got[0] != op:
                             tie_diffs.append(dict(where=where, got=outs[r][pos][:300], why='answer does not match the op'))
                             continue
+                        if exp['kind'] == 'err':
+                            if got[1] != str(exp['code']):
+                                prop_fail.append(('wrong-return-code:' + op, sc, where, '%s: returned %s, expected %d' % (exp['why'], got[1], exp['code'])))
+                            continue
                         if got[1] != '0':
                             prop_fail.append(('api-error:' + op, sc, where, 'call failed with %s' % got[1]))
                             continue
@@ -893,7 +943,7 @@ def run_check(tier, seed):
                     for off, b in fin['regions']:
                         mask[off:off + len(b)] = b'\x01' * len(mask[off:off + len(b)])
                     left = [k for k in range(len(fb)) if not mask[k] and fb[k] == 0xAA]
-                    if len(fb) > fin['end'] + 3 or len(left) >= 4:
+                    if len(fb) > max(fin['end'], fin.get('hi', 0)) + 3 or len(left) >= 4:
                         prop_fail.append(('clobber-survivor', sc, where, 'size %d expected end %d; %d bytes 0xAA outside written areas (first at %s)' %
                                           (len(fb), fin['end'], len(left), left[:3])))
                 distinct.add((si, tuple(sorted(sc['feats'])), sc['fmt'], tuple(sc['env'])))
